@@ -116,6 +116,15 @@ def rangeOp (start stop step : Int) (op : Op) (o : Val) : Except ErrK Val :=
     | _ => .error .invalidArguments
   | _ => .error .unsupported
 
+/-- `SubprojectHolder`: only `InterpreterObject.op_equals` (object identity — not modelled) -/
+def subprojOp (op : Op) (o : Val) : Except ErrK Val :=
+  match op with
+  | .equals | .notEquals =>
+    match o with
+    | .subproj .. => .error .unsupported
+    | _ => .error .invalidArguments
+  | _ => .error .unsupported
+
 /-- the body run once the table checks have passed -/
 def opBody (self : Val) (op : Op) (other : Option Val) : Except ErrK Val :=
   match self, other with
@@ -131,6 +140,7 @@ def opBody (self : Val) (op : Op) (other : Option Val) : Except ErrK Val :=
   | .arr a, some o => arrOp a op o
   | .dict a, some o => dictOp a op o
   | .range s e st, some o => rangeOp s e st op o
+  | .subproj _ _, some o => subprojOp op o
   | _, _ => .error .unsupported
 
 /-- `InterpreterObject.operator_call(operator, other)`; `other = none` for the unary operators -/
